@@ -27,6 +27,10 @@ def run(chk, tier):
         # R04.9 'each repeated by its exact count': every quantifier adds its count to what the chain has accumulated (the width of the slot range)
         B.quantify_arith(chk, F, 'R04.9', cfg)
         B.api_table(chk, F, 'R04.9.api', cfg)
+        # R04.10 'and it then gets that slot's response': inside a pattern's slot range the response is the segment that owns the call's
+        # position (greatest start <= k; a zero-count segment owns no slot) - the lookup shared with C02
+        from props.c02 import segment_lookup
+        segment_lookup(chk, F, 'R04.10', cfg)
         from props import ctor
         ctor.builder_constructors(chk, F, 'R04.0', cfg)
         efn, epaths, erows = E.eval_dyn_table(chk, F, 'R04.7.table', cfg)
@@ -79,6 +83,16 @@ def range_assignment(chk, F, rule, cfg):
         v = built.get(id(p)) or ('unk', '')
         d = dict(v[4]) if v[0] == 'agg' else {}
         rng = strip(d.get('ordered_call_index_range', ('unk', '')))
+        if rng[0] == 'agg' and rng[2] == 'core::option::Option':
+            # the slot range kept as Option<Range>: None = no slots (what the empty range says on the reference tree)
+            if rng[3] == 'None':
+                if m == 'InAnyOrder':
+                    chk.ob(rule, 'unordered patterns get no slots and do not advance the cursor', not writes, config=cfg, fn=fn, site='unordered', what='unordered pattern touches slots',
+                           found={'writes': len(writes), 'range': 'None'}, expected='no range, cursor untouched')
+                    continue
+                rng = ('unk', 'None for an ordered pattern')
+            else:
+                rng = strip(rng[4][0][1])
         if m == 'InAnyOrder':
             empty = (rng[0] == 'call' and bool(re.search(r'Default>?::default$', rng[1]))) or \
                     (rng[0] == 'agg' and dict(rng[4]).get('start') is not None and strip(dict(rng[4])['start']) == strip(dict(rng[4]).get('end', ('unk', ''))))     # (x..x is empty whatever x is)
